@@ -125,6 +125,8 @@ class Exec(object):
         self.solver_time = 0.0
         self.solver_calls = 0
         self.hooks = {}
+        self.t_start = time.time()
+        self.budget_s = 300
         self.loop_specs = {}     # (funcqualname, kind, ordinal) -> spec
         self.call_contracts = {}  # qualname -> contract (modular calls)
         self.on_wait = None
@@ -133,12 +135,15 @@ class Exec(object):
     # ------------------------------------------------------------------ paths
     def reset_path(self, decisions):
         self.decisions = list(decisions)
+        self.prefix_len = len(self.decisions)
         self.pos = 0
         self.pc = []
         self.solver = z3.Solver()
         self.solver.set('timeout', self.timeout_ms)
         self.fresh_count = {}
         self.facts_seen = set()
+        self.scopes = []
+        self.len_terms = []
         self.nondet = []         # (kind, value) oracle choices on this path
         self.frames = []
         self.events = []         # ghost event log
@@ -172,6 +177,7 @@ class Exec(object):
                 ln = minlen
             else:
                 ln = z3.Int(name + '.len')
+                self.len_terms.append(ln)
                 self.assume(ln >= minlen)
                 if maxlen is not None:
                     self.assume(ln <= maxlen)
@@ -197,6 +203,28 @@ class Exec(object):
         self.facts_seen.add(k)
         self.solver.add(t)
         self.pc.append(t)
+        if self.scopes:
+            self.scopes[-1].append(t)
+
+    def push_scope(self):
+        """temporary assumptions (spec-level implication / sequential conjunction)"""
+        self.scopes.append([])
+        self.solver.push()
+        return len(self.pc)
+
+    def pop_scope(self, mark):
+        """-> constraints added inside the scope (besides facts, which are kept)"""
+        facts = self.scopes.pop()
+        ids = set(f.get_id() for f in facts)
+        extra = [t for t in self.pc[mark:] if t.get_id() not in ids]
+        del self.pc[mark:]
+        self.solver.pop()
+        for f in facts:
+            self.solver.add(f)
+            self.pc.append(f)
+            if self.scopes:
+                self.scopes[-1].append(f)
+        return extra
 
     def assume(self, t):
         if isinstance(t, bool):
@@ -225,6 +253,18 @@ class Exec(object):
             self.solver.add(e)
         r = self.solver.check()
         m = self.solver.model() if r == z3.sat else None
+        if r == z3.sat and self.len_terms:
+            # prefer a small counterexample: bound every symbolic length
+            for bound in (8, 40, 300):
+                self.solver.push()
+                for t in self.len_terms:
+                    self.solver.add(t <= bound)
+                r2 = self.solver.check()
+                if r2 == z3.sat:
+                    m = self.solver.model()
+                self.solver.pop()
+                if r2 == z3.sat:
+                    break
         self.solver.pop()
         return r, m
 
@@ -247,6 +287,10 @@ class Exec(object):
             self.solver.add(c if d else z3.Not(c))
             self.pc.append(c if d else z3.Not(c))
             return d
+        if os.environ.get('PYVC_TRACE'):
+            self.branch_hist = getattr(self, 'branch_hist', {})
+            k = self.where(getattr(self, 'cur_node', None))
+            self.branch_hist[k] = self.branch_hist.get(k, 0) + 1
         rt = self.check(c)
         rf = self.check(z3.Not(c))
         if rt == z3.unsat and rf == z3.unsat:
@@ -289,8 +333,15 @@ class Exec(object):
             if self.paths >= self.max_paths:
                 self.undecided.append('path budget (%d) exceeded' % self.max_paths)
                 return
+            if time.time() - self.t_start > self.budget_s:
+                self.undecided.append('time budget (%ds) exceeded after %d paths' % (self.budget_s, self.paths))
+                return
             self.reset_path(dec)
             self.paths += 1
+            if os.environ.get('PYVC_TRACE'):
+                import sys
+                sys.stderr.write('path %d dec=%d pending=%d obl=%d t=%.1f\n' % (
+                    self.paths, len(dec), len(self.pending), len(self.obligations), time.time()))
             try:
                 body()
             except PathEnd:
@@ -303,6 +354,11 @@ class Exec(object):
     # ------------------------------------------------------------ obligations
     def oblige(self, name, goal, detail=None, where=None):
         t0 = time.time()
+        self.cur_obligation = name
+        if self.pos < self.prefix_len:
+            # replaying a prefix: this obligation was checked by the path that
+            # created the prefix, under the same path condition
+            return True
         if isinstance(goal, bool):
             if goal:
                 self.obligations.append(Obligation(name, 'discharged', self.paths, detail, where=where))
@@ -329,6 +385,13 @@ class Exec(object):
         """Concretise the recorded initial state / oracle under model m."""
         if m is None:
             return None
+        nm = self.obligations[-1].name if False else None
+        self.model_budget = getattr(self, 'model_budget', {})
+        key = getattr(self, 'cur_obligation', None)
+        n = self.model_budget.get(key, 0)
+        self.model_budget[key] = n + 1
+        if n >= 6:
+            return {'skipped': 'more than 6 failing paths for this obligation; model not concretised'}
         snap = {}
         if self.hooks.get('concretize'):
             try:
@@ -455,8 +518,9 @@ class Exec(object):
         """Call an interpreted function: bind arguments, run the body."""
         if f.qualname in self.call_contracts and not self.hooks.get('inline_all'):
             c = self.call_contracts[f.qualname]
-            if c is not self.hooks.get('current_contract'):
+            if f is not self.hooks.get('target_func') or self.ghost.get('entered_target'):
                 return self.hooks['apply_contract'](self, c, f, args, kwargs)
+            self.ghost['entered_target'] = True
         node = f.node
         a = node.args
         params = [x.arg for x in a.posonlyargs + a.args]
@@ -850,7 +914,8 @@ class Exec(object):
     def st_FunctionDef(self, s):
         fr = self.frames[-1]
         f = self.make_function(s, fr.module, fr.env + [fr.locals], None,
-                               (fr.func.qualname + '.<locals>.' if fr.func else '') + s.name)
+                               (fr.func.qualname + '.<locals>.' if fr.func else
+                                (fr.module.name + '.' if getattr(fr.module, 'name', None) else '')) + s.name)
         f = self.apply_decorators(s, f)
         fr.locals[s.name] = f
 
